@@ -107,7 +107,25 @@ for (const line of lines) {
           } catch (e) { res.push({ helper: h, level, error: String(e && e.message || e) }); }
         }
       }
-      emit({ ...base, helpers: res });
+      // precedence and isolation of the generic header options: client default x per-call value, then a plain call
+      const prec = [];
+      for (const name of (c.names || [])) {
+        for (const mode of ['default_only', 'call_only', 'both', 'both_then_plain']) {
+          let rec = null;
+          const fetchFn = async (url, init) => { rec = { headers: hdrObj(init && init.headers) }; return new Response('{}', { status: 200, headers: { 'Content-Type': 'application/json' } }); };
+          try {
+            const cl = new Cls('http://verif.test', mode === 'call_only' ? { fetch: fetchFn } : { fetch: fetchFn, defaultHeaders: { [name]: 'dv' } });
+            const mn = findMethod(cl, c.rpc);
+            await cl[mn](structuredClone(c.reqObj), mode === 'default_only' ? undefined : { headers: { [name]: 'cv' } });
+            if (mode === 'both_then_plain') await cl[mn](structuredClone(c.reqObj), undefined);
+            // what the wire would carry: the Fetch API merges same-named members case-insensitively
+            const wire = new Headers(); for (const [k, v] of Object.entries(rec ? rec.headers : {})) wire.append(k, v);
+            const got = wire.get(name);
+            prec.push({ header: name, mode, got: got == null ? [] : [got], want: (mode === 'default_only' || mode === 'both_then_plain') ? 'dv' : 'cv' });
+          } catch (e) { prec.push({ header: name, mode, error: String(e && e.message || e) }); }
+        }
+      }
+      emit({ ...base, helpers: res, precedence: prec });
     } else if (c.op === 'client_record' || c.op === 'client_finish') {
       const m = await load(c.client);
       if (m.error) { emit({ ...base, error: m.error, stage: 'load' }); continue; }
